@@ -59,7 +59,7 @@ func startNode(fsys kfake.VerifFS, syncWrites bool) (n *node, err error, panicke
 	if panicked != nil || err != nil {
 		return nil, err, panicked
 	}
-	vers := kversion.Tip()
+	vers := kversion.Stable()
 	vers.SetMaxKeyVersion(8, 9) // OffsetCommit by topic name
 	vers.SetMaxKeyVersion(9, 7) // OffsetFetch: one group, null topics = all
 	cl, cerr := kgo.NewClient(
